@@ -653,3 +653,23 @@ Definition seek_entries (l : list entry) (k : bytes) : list entry :=
 Definition spec_seek (E : list entry) (_ : list entry) (k : bytes) : list entry := seek_entries E k.
 Definition spec_run (E : list entry) (prog : list iop) : list (option entry) :=
   hd_error E :: run_prog (spec_seek E) (@tl entry) (@hd_error entry) E prog.
+
+(* ------------------------------------------------------------------ hypotheses of the theorems *)
+
+(* byte strings really are byte strings (every element 0..255) *)
+Definition valid_prog (prog : list iop) : Prop :=
+  Forall (fun o => match o with ISeek k => valid_bytes k = true | INext => True end) prog.
+Definition valid_opt (o : option bytes) : Prop := valid_bytes (ob o) = true.
+
+(* the moss variant is exact when its successor function is a correct prefix successor *)
+Definition variant_repaired (v : variant) : Prop :=
+  match v with
+  | VMoss succ => forall p, valid_bytes p = true -> succ p = next_prefix p
+  | _ => True
+  end.
+
+(* SPEC of upsidedown's counter merge: one operand adds a signed delta, never below zero, modulo 2^64;
+   an operand is the little-endian two's complement encoding of the delta *)
+Definition counter_add (c d : Z) : Z := (Z.max 0 (c + d)) mod two64.
+Definition i64_bytes (d : Z) : bytes := put_le_u64 (d mod two64).
+
